@@ -243,6 +243,10 @@ AVFORM_TAG = {'const': 'python-numbers', 'cfloat': 'python-numbers', 'cbool': 'p
               'mixed': 'numbers-and-variables', 'mixed2': 'numbers-and-variables', 'expr': 'expressions'}
 
 
+# forms that keep the VALUE of a condition (cbool does not: True is one)
+VAL_AVFORMS = ['cfloat', 'numeric', 'mixed', 'expr', 'const', 'mixed2']
+
+
 def avforms_for(k, every):
     """availability forms of one (structure, assignment, pattern): all of them, or one all-number form and one other form,
     both rotating with k (over the patterns of a structure every form is reached)."""
@@ -289,6 +293,36 @@ def build_av6(alts, form, pat):
 # the alphabet: it is the engine's documented missing-value code - a Variable holding it raises as soon as it is read.)
 NA_CODES = [[-1000.0, 88888.0], [-99999.0, 800.0], [-750.0, 1.0e6], [-1.0e5, 1500.0], [-5000.0, 9999.0]]
 UTAG = 'not-applicable-utility-codes-of-unavailable-alternatives'
+
+
+# values of the availability conditions of AVAILABLE alternatives: in Biogeme an alternative is available when its condition is
+# NON ZERO (the test of the logit expression, of mev / logmev and of the nest sums of the nested logit), so a condition that
+# holds a count (number of vehicles 0, 1, 2, 3), a share or any other non-zero number is as valid as 0 / 1.  No formula of the
+# nested family contains the VALUE of the condition.  Per alphabet (VERIF_SEED): three positive values other than one (a
+# count, a larger number, a fraction) and one negative value (thorough tier).
+AV_VALUES = [[2.0, 3.0, 0.5, -1.0], [3.0, 7.0, 0.25, -2.0], [2.0, 10.0, 0.5, -0.5], [4.0, 1.5, 0.125, -3.0], [2.0, 5.0, 0.75, -1.0]]
+AVTAG = 'availability-conditions-with-non-zero-values-other-than-one'
+
+
+def av_values(seed, tier):
+    v = AV_VALUES[int(seed) % len(AV_VALUES)]
+    return v[:3] if tier == 'quick' else v
+
+
+def avval_pats(pats, vals):
+    """every availability pattern of `pats` x every placement of the values (each single available alternative, the others
+    keeping 1; all available alternatives together, values rotating) x every value (rotation of `vals`)."""
+    out = []
+    for pat in pats:
+        av = [k for k in range(len(pat)) if pat[k]]
+        placements = [[k] for k in av] + ([av] if len(av) > 1 else [])
+        for pl in placements:
+            for vi in range(len(vals)):
+                p = [float(x) for x in pat]
+                for n, k in enumerate(pl):
+                    p[k] = vals[(vi + n) % len(vals)]
+                out.append(p)
+    return out
 
 
 def tag_info(info, utag):
@@ -960,6 +994,15 @@ def tasks(tier, seed):
         n = len(R.cnl_structures(alph['labels'][:J], M, alph['splits'][:ns]))
         for ch in B._chunks(range(n), per * 3):
             t.append(dict(part='na_cnl', J=J, M=M, ns=ns, structs=ch, seed=seed, tier=tier))
+    # availability conditions of available alternatives holding other non-zero values than one (counts, shares, ...)
+    for J in range(2, Jmax + 1):
+        n = len(R.nested_structures(alph['labels'][:J]))
+        for ch in B._chunks(range(n), ({2: 5, 3: 3} if quick else {2: 3, 3: 2, 4: 2})[J]):
+            t.append(dict(part='avval', J=J, structs=ch, seed=seed, tier=tier))
+        for ch in B._chunks(na_entry_structures(tier, seed, J, n), ({2: 3, 3: 2} if quick else {2: 2, 3: 1, 4: 1})[J]):
+            t.append(dict(part='avval_entry', J=J, structs=ch, seed=seed, tier=tier))
+        for ch in B._chunks(range(n), ({2: 5, 3: 3} if quick else {2: 2, 3: 1, 4: 2})[J]):
+            t.append(dict(part='avval_forms', J=J, structs=ch, seed=seed, tier=tier))
     return t
 
 
@@ -1230,6 +1273,61 @@ def run_task(task):
                                          INIT_MODES[kk % 3], utag=UTAG)
         rec.sample(dict(part=part, alts=alts, first=structs[task['structs'][0]], codes=codes, groups=len(nat.groups),
                         example_group=nat.describe_group(len(nat.groups) - 1)))
+    elif task['part'] in ('avval', 'avval_entry', 'avval_forms'):
+        # the availability conditions of available alternatives hold non-zero values other than one: every clause that stays
+        # inside the nested / logit family ((a), (c), (d) and the derivative clause (e)), every structure
+        structs = R.nested_structures(alts)
+        base = _table(alph, J, tier, small=True)
+        vals = av_values(task['seed'], tier)
+        vpats = avval_pats(base.pats, vals)
+        us = base.us if J <= 3 else base.us[1::4]
+        vt = B.Table(alts, us, vpats)
+        full = tier != 'quick' and J <= 3
+        part = task['part']
+        seed = int(task['seed'])
+        for si in task['structs']:
+            alone, nests = structs[si]
+            for mi, mus in enumerate(assignments(alph, len(nests), si, full=full)):
+                k = si + mi
+                if part == 'avval':
+                    for e in (0, 1 + k % (len(GEN_ENTRIES) - 1)):
+                        kk = k + e
+                        entries = GEN_ENTRIES[e] if e else None
+                        check_generating(alph, alts, alone, nests, mus, vt, rec, 'obj' if kk % 2 == 0 else 'tuple', 'var',
+                                         'betavar', (B.PFORMS + ['movedbeta'])[kk % 5] if entries else B.PFORMS[kk % 4], entries,
+                                         INIT_MODES[kk % 3], utag=AVTAG)
+                    check_nested_structure(alph, alts, alone, nests, mus, vt, rec, tier, k, light=not full, utag=AVTAG,
+                                           nested_only=True)
+                    if tier != 'quick' and nests and (J <= 3 or mi == si % 2):
+                        check_nested_structure(alph, alts, alone, nests, mus, vt, rec, tier, k, moved=INIT_MODES[k % 3],
+                                               light=True, utag=AVTAG, nested_only=True)
+                elif part == 'avval_entry':
+                    if tier == 'quick' and nests and mi != (si + seed) % 2:
+                        continue
+                    check_entry_points(alph, alts, alone, nests, mus, vt, rec, 'var', k, utag=AVTAG, nested_only=True)
+                else:
+                    # the valued conditions written without data columns (numbers, Numeric objects, numbers and columns, products
+                    # of expressions): one table per pattern.  quick: J = 2 every pattern, J = 3 every third one; thorough:
+                    # J <= 3 every pattern, J = 4 every eighth one (rotating with structure, assignment and seed)
+                    if mi > 1:
+                        continue
+                    step = {2: 1, 3: 3 if tier == 'quick' else 1, 4: 8}[J]
+                    for pi, pat in enumerate(vpats):
+                        if (pi + k + seed) % step:
+                            continue
+                        t1 = B.Table(alts, us[(pi + k) % 2::2] if J <= 3 else us[(pi + k) % 2::2][:2], [pat])
+                        kk = k + pi
+                        avf = VAL_AVFORMS[kk % len(VAL_AVFORMS)]
+                        entries = None if kk % 2 == 0 else GEN_ENTRIES[1 + (kk // 2) % (len(GEN_ENTRIES) - 1)]
+                        check_generating(alph, alts, alone, nests, mus, t1, rec, 'obj' if kk % 4 < 2 else 'tuple', avf, 'betavar',
+                                         (B.PFORMS + ['movedbeta'])[kk % 5] if entries else B.PFORMS[kk % 4], entries,
+                                         INIT_MODES[kk % 3], utag=AVTAG)
+                        if tier != 'quick' and (J == 2 or (J == 3 and (pi + k) % 4 == 0)):
+                            avf2 = VAL_AVFORMS[(kk + 1 + (kk // len(VAL_AVFORMS)) % (len(VAL_AVFORMS) - 1)) % len(VAL_AVFORMS)]
+                            check_nested_structure(alph, alts, alone, nests, mus, t1, rec, tier, k, avf=avf2, light=True,
+                                                   utag=AVTAG, nested_only=True)
+        rec.sample(dict(part=part, alts=alts, first=structs[task['structs'][0]], availability_values=vals,
+                        valued_patterns=len(vpats), example_pattern=vpats[-1]))
     elif task['part'] == 'na_cnl':
         structs = R.cnl_structures(alts, task['M'], alph['splits'][:task['ns']])
         base = _table(alph, J, tier, small=True)
